@@ -265,7 +265,11 @@ func batch(engine, prop, tier string, pe PropEngine) int {
 					r := &Result{}
 					if err := json.Unmarshal(sc.Bytes(), r); err != nil {
 						mu.Lock()
-						harness = append(harness, "worker output: "+err.Error())
+						// a worker killed because the batch was cut short may
+						// have been in the middle of a line
+						if !aborted {
+							harness = append(harness, "worker output: "+err.Error())
+						}
 						mu.Unlock()
 						continue
 					}
